@@ -310,6 +310,54 @@ fn plans_bound2(n: usize, stride: usize) -> Vec<Plan> {
     v
 }
 
+/// 3-preemption plans aimed at the operations where the two actors look at each other: actor X
+/// runs until just before its a1-th operation, Y until just before its b1-th, X until just
+/// before its a2-th, then Y to its end and X to its end; a1 < a2 and b1 range over the
+/// "interesting" operations (lock file, root listing, band directory, block directory, first
+/// removals) of the sequential run.
+fn plans_bound3_targeted(log: &[Ev]) -> Vec<Plan> {
+    let interesting = |e: &Ev| {
+        let pc = path_class(&e.path);
+        matches!(pc, "GC_LOCK" | "root" | "banddir" | "blockdir" | "BANDHEAD" | "BANDTAIL")
+            || matches!(e.verb, V::RemoveFile | V::RemoveDirAll)
+            || (e.verb == V::Write && pc == "hunk")
+    };
+    let positions = |actor: u32| -> Vec<usize> {
+        let mut v: Vec<usize> = Vec::new();
+        let mut removes = 0;
+        for (i, e) in log.iter().filter(|e| e.actor == actor).enumerate() {
+            if interesting(e) {
+                if matches!(e.verb, V::RemoveFile) {
+                    removes += 1;
+                    if removes > 2 {
+                        continue;
+                    }
+                }
+                v.push(i);
+                v.push(i + 1);
+            }
+        }
+        v.sort();
+        v.dedup();
+        v
+    };
+    let (pa, pb) = (positions(A), positions(B));
+    let mut plans = Vec::new();
+    for (x, y, px, py) in [(A, B, &pa, &pb), (B, A, &pb, &pa)] {
+        for (i, a1) in px.iter().enumerate() {
+            for a2 in &px[i + 1..] {
+                for b1 in py.iter() {
+                    if *a1 == 0 || *b1 == 0 {
+                        continue;
+                    }
+                    plans.push(Plan { first: x, switches: vec![(*a1, y), (a1 + b1, x), (b1 + a2, y)] });
+                }
+            }
+        }
+    }
+    plans
+}
+
 fn random_plan(rng: &mut Rng, n: usize) -> Plan {
     let first = if rng.chance(1, 2) { A } else { B };
     let d = 3 + rng.below(3) as usize;
@@ -356,6 +404,13 @@ pub fn run(tier: Tier, replay: Option<Value>) -> i32 {
             for _ in 0..tier.pick(150, 4000) {
                 p.push(random_plan(&mut rng, n));
             }
+            let mut t3 = plans_bound3_targeted(&base.log);
+            run.count("targeted_3_preemption_plans_available", t3.len() as u64);
+            if tier == Tier::Quick && t3.len() > 1500 {
+                rng.shuffle(&mut t3);
+                t3.truncate(1500);
+            }
+            p.extend(t3);
             p
         };
         plans.dedup();
@@ -392,7 +447,7 @@ pub fn run(tier: Tier, replay: Option<Value>) -> i32 {
     }
     let _ = Path::new("");
     run.finish(
-        "actors A = backup(source) and B = gc, delete of the oldest version, or delete of the newest version (the backup's basis), on archives holding a complete version plus garbage blocks (a large-file block and a combined block left by a hand-removed band) whose content reappears in A's source; every storage operation of either actor is parked until a deterministic scheduler grants it (the scheduler only chooses when both actors are settled). Schedules: all with <= 1 preemption (every start offset of either actor, every switch point), a grid of 2-preemption schedules (every pair in the thorough tier), and random schedules with 3-5 switches. When both have finished: every version with a tail must restore exactly to the tree it was made from and no complete band may reference a removed block. Distinct = distinct grant sequences.",
+        "actors A = backup(source) and B = gc, delete of the oldest version, or delete of the newest version (the backup's basis), on archives holding a complete version plus garbage blocks (a large-file block and a combined block left by a hand-removed band) whose content reappears in A's source; every storage operation of either actor is parked until a deterministic scheduler grants it (the scheduler only chooses when both actors are settled). Schedules: all with <= 1 preemption (every start offset of either actor, every switch point), a grid of 2-preemption schedules (every pair in the thorough tier), random schedules with 3-5 switches, and 3-preemption schedules aimed at the operations where the actors look at each other (lock file, root listing, band directory, block directory, first removals, hunk and tail writes): every triple (X stops before its a1-th operation, Y before its b1-th, X before its a2-th) over those positions, 1500 sampled in the quick tier. When both have finished: every version with a tail must restore exactly to the tree it was made from and no complete band may reference a removed block. Distinct = distinct grant sequences.",
         &["granularity is one storage operation; operations of parallel listing tasks of one actor are granted in canonical order", "interleavings beyond the explored preemption bound are sampled, not enumerated"],
         Some(false),
         &[("schedules_run", 50), ("schedules_backup_references_former_garbage", 5), ("complete_versions_restored", 100)],
